@@ -10,6 +10,8 @@ class P(piperun.PipeProperty):
                     'batch', 'unbatch', 'items', 'tile', 'shuffleOnce', 'sort', 'shard', 'cache', 'catch',
                     'copy', 'prefetch')
 
+    source_modes = ('pickle', 'pickle', 'wu', 'copy')
+
     def oracle(self, p, obs):
         return oracles.c01(p, obs)
 
